@@ -9,6 +9,7 @@
 From Verif Require Import Base.Prelude Gen.Constants Model.Tdc Proofs.Tdc.
 From Verif Require Model.Lazy Proofs.Lazy.
 From Verif Require Model.Reuse Proofs.Reuse.
+From Verif Require Gen.LockOrderFacts Model.LockOrder Proofs.LockOrder.
 Open Scope N_scope.
 
 (** Any write error, read error / EOF / deadline expiry, or Close closes the connection. *)
@@ -148,3 +149,37 @@ Theorem c07_reuse_waiter_wakes s c :
   (forall r, ubuf (xcalls s c) = Some r -> exists s', xstep s (MSelect c XSelReply) = Some s').
 Proof. exact (reuse_waiter_wakes s c). Qed.
 Print Assumptions c07_reuse_waiter_wakes.
+
+(** * Lock order (all of pkg/upstream/transport; Model.LockOrder, Gen.LockOrderFacts)
+
+    Threads that take locks (mutexes, and sync.Once while its function runs) only in strictly
+    increasing rank and release what they took never deadlock: for every number of threads, all
+    programs obeying the discipline and every schedule, the state reached is finished or some thread
+    can move. *)
+Import Model.LockOrder Proofs.LockOrder.
+Theorem c07_lock_order_no_deadlock (rank : nat -> nat) (ps : list prog) (sched : list nat) :
+  forallb (ordered rank []) ps = true ->
+  let s := lrun (init_of ps) sched in
+  finished s = true \/ exists i s1, LockOrder.lstep s i = Some s1.
+Proof. exact (ordered_no_deadlock rank ps sched). Qed.
+Print Assumptions c07_lock_order_no_deadlock.
+
+(** The nesting table regenerated from the Go source on every run (which lock class may be acquired
+    while which is held, calls followed through the package) is consistent with the ranking: every
+    mutex / once of the package is ranked, every nesting goes strictly upwards, and the translator
+    resolved every lock operation. This is the statement that broke for defect F13
+    (closeOnce -> ReuseConnTransport.m against ReuseConnTransport.m -> closeOnce). *)
+Theorem c07_transport_lock_order :
+  edges_ok transport_rank transport_exempt Gen.LockOrderFacts.lock_classes Gen.LockOrderFacts.lock_edges = true
+  /\ Gen.LockOrderFacts.lock_unresolved = [].
+Proof. exact (conj (eq_refl true) eq_refl). Qed.
+Print Assumptions c07_transport_lock_order.
+
+(** Non-vacuity: the inverted order deadlocks in the model (both threads stuck, nobody finished); the
+    repaired order obeys the discipline. *)
+Example c07_lock_inversion_deadlocks :
+  let s := lrun (init_of inverted_progs) [0; 1]%nat in
+  finished s = false /\ LockOrder.lstep s 0 = None /\ LockOrder.lstep s 1 = None.
+Proof. exact inversion_deadlocks. Qed.
+Example c07_repaired_order_disciplined : forallb (ordered (fun l => l) []) repaired_progs = true.
+Proof. exact repaired_disciplined. Qed.
